@@ -99,7 +99,7 @@ def corpus():
 
 def generated(rng, tier):
     """extra problems drawn from ctx.rng (string keyed: the class on which hash order can show)"""
-    k = 2 if tier == "quick" else 4
+    k = 2 if tier == "quick" else 8
     out = {c: [] for c in COMPONENTS}
     for _ in range(k):
         def rp(**kw):
@@ -180,6 +180,15 @@ def first_diff(a, b, path=""):
     """path of the first difference between two canonical renderings"""
     if type(a) != type(b):
         return path or "/"
+    if isinstance(a, dict) and len(a) == 1 and next(iter(a)) in ("map", "dist") and set(a) == set(b):
+        tag = next(iter(a))
+        if [vlib.structural_hash(k) for k, _ in a[tag]] != [vlib.structural_hash(k) for k, _ in b[tag]]:
+            return path + "/<%s keys differ>" % tag
+        for (k, x), (_, y) in zip(a[tag], b[tag]):
+            d = first_diff(x, y, "%s[%s]" % (path, k if isinstance(k, (str, int)) else str(k)[:60]))
+            if d:
+                return d
+        return None
     if isinstance(a, dict):
         for k in sorted(set(a) | set(b)):
             if k not in a or k not in b:
@@ -290,11 +299,13 @@ def report_runtime(ctx, cases, fails):
 # ----------------------------------------------------------------------------
 # static half: the regenerated table evaluated inside coqc
 # ----------------------------------------------------------------------------
-def static_half(ctx, exhibited):
+def static_half(ctx, exhibited, only=None):
+    """only: in replay mode, report the table of the replayed component alone"""
     comps = COMPONENTS + ["other"]
     vals = ctx.coq(PRE, ['component_report sites "%s"' % c for c in comps], shard=len(comps), tag="sites")
     table = {}
     discharged = 0
+    empty = []
     for c, v in zip(comps, vals):
         if isinstance(v, vlib.CoqError) or not (isinstance(v, tuple) and len(v) == 5):
             ctx.violation("C13:sites:%s:coq-evaluation-failed" % c, {"case": None, "error": str(v)[:1500]}, found=False)
@@ -302,7 +313,10 @@ def static_half(ctx, exhibited):
         allpriv, glob, hsh, n, off = v
         off = [{"file": o[0], "line": o[1], "kind": KIND_NAMES[o[2]], "what": o[3]} for o in off]
         table[c] = {"all_private": allpriv, "uses_global_generator": glob, "hash_order_dependence": hsh, "sites": n, "offending": off}
-        if c == "other":
+        if c == "other" or (only is not None and c != only):
+            continue
+        if n == 0:
+            empty.append(c)
             continue
         if allpriv:
             discharged += 1
@@ -317,6 +331,9 @@ def static_half(ctx, exhibited):
                       "offending_sites": [o for o in off if o["kind"] in kinds],
                       "concrete_run": ex if ex else "the differential runs of this check exhibited no failing run for this component"}
             ctx.violation("C13:sites:%s:%s" % (c, tag), detail, found=bool(ex))
+    if empty:
+        ctx.violation("C13:sites:extractor-saw-no-site", {"case": None, "components": empty,
+                      "note": "gen/Sites.v has no entry for these components: extraction failed (see the pregen error) or the code moved"}, found=False)
     return table, discharged
 
 
@@ -326,7 +343,8 @@ def run(ctx):
     results = run_matrix(ctx, cases, hashseeds)
     fails, counters = analyse(ctx, cases, results, hashseeds)
     exhibited = report_runtime(ctx, cases, fails)
-    table, discharged = static_half(ctx, exhibited)
+    only = cases[0]["component"] if (ctx.replay_case and len(cases) == 1) else None
+    table, discharged = static_half(ctx, exhibited, only)
 
     # coverage: a case is non-trivial when the result really depends on the seed
     groups = {}
